@@ -144,6 +144,13 @@ def build_document(spec):
         else:
             body.append(toc2)
         doc._vf_toc2 = toc2
+    if spec.get("indented"):
+        # the document as an indenting producer (or a pretty save reopened) holds it: line ends and blanks
+        # between the blocks of office:text and of sections - ignorable there, never part of a heading
+        body_n = c09.node(body)
+        for e in body_n.iter():
+            if isinstance(e.tag, str) and e.getparent() is not None and e.getparent().tag in (body_n.tag, TX + "section") and e.tag in (TX + "h", TX + "p", TX + "section"):
+                e.tail = "\n" + "  " * (1 + sum(1 for _ in e.iterancestors(TX + "section")))
     return doc, toc
 
 
@@ -359,6 +366,7 @@ def gen_spec(rng):
         "table": rng.random() < 0.2,
         "use_default_styles": rng.random() < 0.6,
         "history": history,
+        "indented": rng.random() < 0.3,
     }
 
 
